@@ -11,6 +11,9 @@ type announceHandler struct {
 	f func(hash []byte, ipv6 bool, port uint16)
 }
 
+type faultHandler struct{ f func(name string) error }
+
+var faultH atomic.Pointer[faultHandler]
 var pointH atomic.Pointer[pointHandler]
 var announceH atomic.Pointer[announceHandler]
 
@@ -30,6 +33,26 @@ func SetAnnounce(f func(hash []byte, ipv6 bool, port uint16)) {
 		return
 	}
 	announceH.Store(&announceHandler{f})
+}
+
+// SetFault installs the handler consulted at every fault point (nil removes
+// it).
+func SetFault(f func(name string) error) {
+	if f == nil {
+		faultH.Store(nil)
+		return
+	}
+	faultH.Store(&faultHandler{f})
+}
+
+// Fault marks a named point where an operation of the environment (a system
+// call) may be made to fail: a non-nil result stands for that failure.
+func Fault(name string) error {
+	h := faultH.Load()
+	if h != nil {
+		return h.f(name)
+	}
+	return nil
 }
 
 // Point marks a named yield point.
